@@ -247,6 +247,7 @@ def check_main(engine, prop, argv):
     ap.add_argument('--seed', type=int, default=None)
     ap.add_argument('--jobs', type=int, default=int(os.environ.get('VERIF_JOBS') or 0))
     ap.add_argument('--runs', type=int, default=None)
+    ap.add_argument('--first', type=int, default=0, help='index of the first run (debugging aid)')
     ap.add_argument('--no-determinism', action='store_true')
     ap.add_argument('--no-evidence', action='store_true')
     args = ap.parse_args(argv)
@@ -295,7 +296,8 @@ def _check(engine, prop, tier, seed, jobs, args, t0):
     hard_s = plan.get('hard_s', HARD_S)
     _W.update(engine=engine, prop=prop, tier=tier, seed=seed,
               hang_s=hard_s, inflight_dir=inflight_dir)
-    chunks = [list(range(i, min(i + chunk, runs))) for i in range(0, runs, chunk)]
+    first = args.first
+    chunks = [list(range(first + i, first + min(i + chunk, runs))) for i in range(0, runs, chunk)]
     agg = {
         'n': 0, 'steps': 0, 'lines': 0, 'nontrivial_runs': 0,
         'faults': collections.Counter(), 'probes': collections.Counter(),
